@@ -98,6 +98,8 @@ Record world := {
 
 Fixpoint store_get (s : list (part * Z)) (p : part) : option Z :=
   match s with [] => None | (q, o) :: r => if Z.eqb p q then Some o else store_get r p end.
+(* what an OffsetFetch answers: the stored offset, -1 when there is none *)
+Definition committed (s : list (part * Z)) (p : part) : Z := match store_get s p with Some o => o | None => -1 end.
 Definition store_set (s : list (part * Z)) (p : part) (o : Z) : list (part * Z) :=
   (p, o) :: filter (fun x => negb (Z.eqb (fst x) p)) s.
 Fixpoint store_set_all (s : list (part * Z)) (bs : list (part * Z)) : list (part * Z) :=
@@ -322,9 +324,9 @@ Definition step (cf : cfg) (w : world) (i : input) : world * list event :=
   | IFetch ok =>
     match w_phase w with
     | PManage (p :: todo) =>
-      if ok then
-        let pom := match store_get (w_store w) p with Some o => o | None => -1 end in
-        (enter_manage (set_claims w (s_claims w ++ [mk_claim p pom])) todo, [EvReq (RFetch p) 0 0])
+      (* ManagePartition fails when the fetch fails or the partition is already managed (a plan naming it twice) *)
+      if ok && match claim_find (s_claims w) p with None => true | Some _ => false end then
+        (enter_manage (set_claims w (s_claims w ++ [mk_claim p (committed (w_store w) p)])) todo, [EvReq (RFetch p) 0 0])
       else                                    (* release(false): no Cleanup *)
         let '(w', e) := enter_commit (set_res (set_ctx w) RFetchErr) (c_commit_attempts cf) in
         (w', EvReq (RFetch p) 0 0 :: EvEnd CauseFetchErr :: e)
